@@ -789,6 +789,12 @@ func (w *Worker) bytesOfString(s *State, x StrV) Value {
 		p := s.alloc(a)
 		return SliceV{p.Obj, 0, len(cs), len(cs)}
 	}
+	if x.K == SOpaque {
+		if obj, ok := s.BlobOf[x.T]; ok {
+			// the bytes of a structured document that travelled as a string
+			return SliceV{obj, 0, -1, -1}
+		}
+	}
 	p := s.alloc(BlobV{Kind: "str", S: x})
 	return SliceV{p.Obj, 0, -1, -1}
 }
@@ -834,6 +840,10 @@ func (w *Worker) blobStr(s *State, obj int) string {
 	n := w.E.freshVar(s, "blob", "String")
 	b.S = opaqueStr(n)
 	s.Heap[obj] = b
+	if s.BlobOf == nil {
+		s.BlobOf = map[string]int{}
+	}
+	s.BlobOf[n] = obj
 	return n
 }
 
